@@ -521,6 +521,9 @@ Inv_C13 == (RetNow /\ ~ArgsValid(lastc)) =>
 \* boundary cases return as documented (C13, valid side of the table)
 Inv_C13b == (RetNow /\ ArgsValid(lastc) /\ ~lastc.faulted) =>
              (Last.res = "ok" => RetAdmissible)
+\* C01: an in-bounds block-aligned read returns the full requested length
+FullRead == lastc.op = "read" /\ ReadValid(lastc.cls) /\ lastc.cls.end = "le"
+Inv_C01len == (RetNow /\ FullRead /\ ~lastc.faulted /\ Last.res = "ok") => Last.n = lastc.n
 \* a call with valid arguments fails only because of a backend error (C07)
 Inv_C07b == (RetNow /\ ArgsValid(lastc) /\ ~lastc.faulted) => Last.res = "ok"
 
@@ -574,7 +577,8 @@ Audit ==
   /\ ~Inv_C07a => Report("C07", <<Last.e, Last.msg>>)
   /\ ~Inv_Open => Report("OPEN", <<Last.res, Last.msg>>)
   /\ ~Inv_C13 => Report("C13", <<lastc.op, Last.res, lastc.cls, lastc.modreq>>)
-  /\ ~Inv_C13b => Report("C13", <<lastc.op, Last.res, Last.n, lastc.cls>>)
+  /\ (~Inv_C13b /\ ~FullRead) => Report("C13", <<lastc.op, Last.res, Last.n, lastc.cls>>)
+  /\ ~Inv_C01len => Report("C01", <<"short read", lastc.gb, lastc.n, Last.n>>)
   /\ ~Inv_C07b => Report("C07", <<lastc.op, Last.res, Last.msg>>)
   /\ crashed => TLCSet(999999, TLCGet(999999) + 1)
   \* crash images on which Inv_C05 says something: a sync point exists and
